@@ -64,13 +64,13 @@ func c18RunOps(c *Ctx, l *lib.Lean, name string, ops []string) error {
 	}
 	switch {
 	case strings.HasPrefix(ops[0], "peer "):
-		nh, ng := 4, 3
+		nh, ng := 5, 2
 		for _, op := range ops {
 			w := strings.Fields(op)
 			if len(w) >= 4 && w[1] == "add" {
 				var h int
 				fmt.Sscan(w[3], &h)
-				if h >= 4 {
+				if h >= 5 {
 					nh, ng = 30, 7
 				}
 			}
@@ -99,7 +99,7 @@ const c18DoubleVersionWhat = "an outbound peer whose remote sends two version me
 
 func runC18(c *Ctx) error {
 	rng := lib.Rng(c.Seed, "c18")
-	c.R.Rule = "peers: seeded histories of add(in|out|pers, host, version-known)/done/ban/clock/addbad/shutdown/dump over 4 hosts x 3 groups (styles mix, fill = persistent peers up to MaxPeers, accident = peers without version/id 0) and 30 hosts x 7 groups (wide), each executed on the real handlers with real peer.Peer objects after a real version handshake over an in-memory connection, compared per op with the Lean model; non-trivial = at least one refusal for per-host limit, total limit or ban. " +
+	c.R.Rule = "peers: seeded histories of add(in|out|pers, host, version-known)/done/ban/clock/addbad/shutdown/dump over 5 hosts in 3 groups (three hosts share a /16, one is RFC1918) (styles mix, fill = persistent peers up to MaxPeers, accident = peers without version/id 0) and 30 hosts x 7 groups (wide), each executed on the real handlers with real peer.Peer objects after a real version handshake over an in-memory connection, compared per op with the Lean model; non-trivial = at least one refusal for per-host limit, total limit or ban. " +
 		"connmgr lock-step: seeded scripts of dial ok/fail/address error/Disconnect/Remove/cancel on the real ConnManager (target 0..8, 1 ms retry, with and without BanAddress), counts compared with the Lean counter machine after every event; non-trivial = at least one failure and one disconnect. " +
 		"connmgr free-running: real interleavings, oracle only."
 	l := c.lean()
@@ -181,6 +181,11 @@ func runC18(c *Ctx) error {
 	if c.Thorough {
 		cplans = []cplan{{"noban", 600, 150}, {"ban", 600, 100}, {"cancel", 400, 60}, {"banheavy", 800, 30}}
 	}
+	// the witness itself, through the same engine (Failure with the specific signature while the defect is there)
+	if _, err := c18Lockstep(c, l, c18WitnessOps(), "conn/witness-R-C18"); err != nil {
+		return err
+	}
+	c.R.Count("conn:history:witness", 1)
 	for _, p := range cplans {
 		for i := 0; i < p.count; i++ {
 			ops := genConnHistory(rng, p.n, p.style)
@@ -209,11 +214,6 @@ func runC18(c *Ctx) error {
 			}
 		}
 	}
-	// the witness itself, through the same engine (Failure with the specific signature while the defect is there)
-	if _, err := c18Lockstep(c, l, c18WitnessOps(), "conn/witness-R-C18"); err != nil {
-		return err
-	}
-	c.R.Count("conn:history:witness", 1)
 
 	// (c) connection manager, free-running
 	nfree := 10
